@@ -347,8 +347,8 @@ pub fn symbol_matches(
     if !kind_ok {
         return Err(format!("symbol kind {:?} for call `{}`", sym.name(), call_text));
     }
-    let want = normalize_ws(call_text);
-    let got = normalize_ws(sym.text());
+    let want = normalize_ws(&strip_comments(call_text));
+    let got = normalize_ws(&strip_comments(sym.text()));
     let ok = if matches!(name, CallName::Dbg) {
         // either the whole call or its argument
         got == want
